@@ -43,10 +43,10 @@ def run(ctx):
     ctx.do(rule_no_hidden_state, "C18.history-independence")
 
 
-def rule_member_forward(ctx):
+def rule_member_forward(ctx, rule_id="C18.member-forward"):
     run = ctx.run
     prog = ctx.prog
-    R = "C18.member-forward"
+    R = rule_id
     cls = prog.cls(DS + "::CompositeDataSource")
     for mname, argname in (("get", "stix_id"), ("all_versions", "stix_id"), ("query", "query")):
         fi = cls.methods.get(mname)
@@ -78,10 +78,19 @@ def rule_member_forward(ctx):
         cf = kws.get("_composite_filters")
         okf = False
         found = None
+        helper_fresh = None
         if cf is not None:
             pr = fl.prov(cf)
             found = repr(pr)
-            okf = "filters" in pr.selfattrs and "_composite_filters" in pr.params
+            sa_, pa_ = set(pr.selfattrs), set(pr.params)
+            # the combination may live in a helper method of the class: read through it (its returns, with this call's binding)
+            hv = _helper_combination(prog, fi, cf)
+            if hv is not None:
+                h_sa, h_pa, helper_fresh, htxt = hv
+                sa_ |= h_sa
+                pa_ |= h_pa
+                found = "%s via %s" % (found, htxt)
+            okf = "filters" in sa_ and "_composite_filters" in pa_
         run.check(okf, R, key(rel, fi.qualname, "forwards-both-filter-sets"),
                   "the filters passed to the members do not combine the composite's own filters with those handed down to it: "
                   "filters attached to a composite do not apply to every member", file=rel, line=call.lineno, function=fi.qualname,
@@ -97,7 +106,8 @@ def rule_member_forward(ctx):
                 st = st.parent
             defs = rd.reaching(g.node_of(st), cf.id)
             notfresh = [short(dn.ast) if dn.ast is not None else "parameter" for dn, v in defs
-                        if not (isinstance(v, ast.Call) and call_simple_name(v) == "FilterSet")]
+                        if not (isinstance(v, ast.Call) and (call_simple_name(v) == "FilterSet" or (
+                            helper_fresh and isinstance(v.func, ast.Attribute) and norm(v.func.value) == "self")))]
             selfmut = [x for x in body_walk(fi.node) if isinstance(x, ast.Call) and isinstance(x.func, ast.Attribute)
                        and norm(x.func.value) == "self.filters" and x.func.attr in ("add", "remove", "update", "clear")]
             run.check(not notfresh and not selfmut, R, key(rel, fi.qualname, "combined-filters-are-private"),
@@ -107,6 +117,54 @@ def rule_member_forward(ctx):
                       expected="%s = FilterSet(); %s.add(self.filters); %s.add(_composite_filters)" % (cf.id, cf.id, cf.id),
                       found=notfresh + [short(x) for x in selfmut])
     run.floor(R, 9)
+
+
+def _helper_combination(prog, fi, cf):
+    """cf (the value handed to the members) is defined by `self.<helper>(...)`: (self attributes, caller parameters the helper's
+    result derives from under this call's binding, every return a fresh FilterSet?, text) -- None when no helper is involved"""
+    from ..cfg import ReachingDefs, cfg_of
+    from ..callgraph import get_callgraph, EXACT, CHA
+    g = cfg_of(fi)
+    rd = ReachingDefs(g, fi.all_param_names())
+    st = cf
+    while not isinstance(st, ast.stmt):
+        st = st.parent
+    vals = [cf]
+    if isinstance(cf, ast.Name):
+        vals = [v for _d, v in rd.reaching(g.node_of(st), cf.id)]
+    cg = get_callgraph(prog)
+    fl = flow_of(fi)
+    sa_, pa_, fresh, txt = set(), set(), True, []
+    hit = False
+    for v in vals:
+        if not (isinstance(v, ast.Call) and isinstance(v.func, ast.Attribute) and norm(v.func.value) == "self"):
+            continue
+        ts = [t for t in cg.resolve(v, fi) if t.func is not None and t.kind in (EXACT, CHA)]
+        if len(ts) != 1:
+            continue
+        hit = True
+        h = ts[0].func
+        b = cg.bind(v, ts[0])
+        hfl = flow_of(h)
+        hg = cfg_of(h)
+        hrd = ReachingDefs(hg, h.all_param_names())
+        for r in returns_of(h):
+            if r.value is None:
+                fresh = False
+                continue
+            hp = hfl.prov(r.value)
+            sa_ |= set(hp.selfattrs)
+            for p_ in hp.params:
+                e = b.params.get(p_)
+                if e is not None:
+                    pa_ |= set(fl.prov(e).params)
+            rv = [r.value]
+            if isinstance(r.value, ast.Name):
+                rv = [x for _d, x in hrd.reaching(hg.node_of(r), r.value.id)]
+            if not all(isinstance(x, ast.Call) and call_simple_name(x) == "FilterSet" for x in rv):
+                fresh = False
+        txt.append(short(v, 60))
+    return (sa_, pa_, fresh, ", ".join(txt)) if hit else None
 
 
 def rule_navigation_over_union(ctx):
